@@ -198,7 +198,7 @@ def run_case(a):
 def run(tier):
     v = Verdict("C03", "exploration", tier)
     cli = common.build_cli()
-    n = 400 if tier == "quick" else 5000
+    n = 400 if tier == "quick" else 40000
     base = common.seed() * 1000003
     jobs = [(cli, i, base + i, "none" if i % 2 == 0 else "zod") for i in range(n)]
     res = common.pmap(run_case, jobs, chunksize=8)
